@@ -155,6 +155,11 @@ class MinFlowDecompCycles(walkmodel.AbstractWalkModelDiGraph):
         self.G = self.G_internal
         self.subset_constraints = subset_constraints_internal
         self.edges_to_ignore = edges_to_ignore_internal
+
+        # Check flow conservation (as documented) only if there are no edges to ignore
+        if len(self.edges_to_ignore) == 0 and not gu.check_flow_conservation(self.G, flow_attr):
+            utils.logger.error(f"{__name__}: The graph G does not satisfy flow conservation or some edges have missing `flow_attr`. This is an error, unless you passed `edges_to_ignore` to include at least those edges with missing `flow_attr`.")
+            raise ValueError("The graph G does not satisfy flow conservation or some edges have missing `flow_attr`. This is an error, unless you passed `edges_to_ignore` to include at least those edges with missing `flow_attr`.")
         self.additional_starts = additional_starts_internal
         self.additional_ends = additional_ends_internal
 
